@@ -12,7 +12,7 @@ from .ast import flat, size, depth
 
 HERE = os.path.dirname(os.path.abspath(__file__))
 RUNNER = os.path.join(HERE, "runner.janet")
-FAR_CTX = {"far", "far_tail", "far_upvalue", "edge"}
+FAR_CTX = {"far", "far_tail", "far_upvalue", "edge", "edge1", "edge2"}
 LIMIT_PREFIX = "C cannot capture local in closure"
 
 
